@@ -541,6 +541,26 @@ func c17RaceLine(sc *c17Scenario, res *c17Result) string {
 	return sb.String()
 }
 
+// failures of already recorded kinds are written at most c17KnownCap times per kind (the rest only counted), so that
+// verifkit's limit on F lines can never hide a failure of another kind
+const c17KnownCap = 15
+
+var (
+	c17KnownMu sync.Mutex
+	c17KnownN  = map[string]int{}
+)
+
+func c17FailCapped(out *verifkit.Out, kind, key, detail string) {
+	c17KnownMu.Lock()
+	c17KnownN[kind]++
+	n := c17KnownN[kind]
+	c17KnownMu.Unlock()
+	out.Count("class:fail-" + kind)
+	if n <= c17KnownCap {
+		out.Fail(key, detail)
+	}
+}
+
 // c17Oracle: the property evaluated on the real outputs of one GetSCTs call.
 func c17Oracle(out *verifkit.Out, tag string, sc *c17Scenario, res *c17Result) {
 	c := sc.cfg
@@ -667,7 +687,7 @@ func c17Oracle(out *verifkit.Out, tag string, sc *c17Scenario, res *c17Result) {
 	if c17Ms(sc.deadline) == c17Long && res.err != nil {
 		// ... the returned set itself satisfies every group, yet an error is reported
 		if satisfied {
-			out.Fail("liveness returned-set-satisfies-policy-but-error "+tag, res.err.Error()+" | "+desc)
+			c17FailCapped(out, "liveness-returned-set", "liveness returned-set-satisfies-policy-but-error "+tag, res.err.Error()+" | "+desc)
 			return
 		}
 		// ... every log answers successfully and every group has enough members with positive weight
@@ -689,7 +709,7 @@ func c17Oracle(out *verifkit.Out, tag string, sc *c17Scenario, res *c17Result) {
 			}
 		}
 		if allOK && enough {
-			out.Fail("liveness all-logs-answer-but-error "+tag, res.err.Error()+" | "+desc)
+			c17FailCapped(out, "liveness-all-logs", "liveness all-logs-answer-but-error "+tag, res.err.Error()+" | "+desc)
 		}
 	}
 }
